@@ -339,3 +339,44 @@ Example C05_last_page :
   window [r_ 1; r_ 2; r_ 3; r_ 4] 4 (Some 3) (Some 2) = Ok [r_ 3; r_ 4] /\
   window [r_ 2; r_ 3; r_ 4] 4 (Some 2) (Some 2) = Ok [r_ 4].
 Proof. exact window_last_page. Qed.
+
+(* ------------------------------------------------------------------ *)
+(* The ORDER BY comparator over every Go numeric kind (sort.go Compare as modelled by C15Run.sort_expect over the
+   exact comparison of Model/Compare.v; tied to the real comparator by the stage order-by-comparator-bridge).
+   Engine tables in the correspondence are JSON-like (float64); these lift C15's order laws to the comparator
+   for rows whose keys are Go integers of any kind. *)
+From GenqlV Require Import Model.Compare Run.C15Run Proofs.C05Bridge.
+
+Theorem C05_comparator_irreflexive : forall a z, Compare a a = Ok z -> sort_expect a a z = (0, 0)%Z.
+Proof. exact comparator_irreflexive. Qed.
+Print Assumptions C05_comparator_irreflexive.
+
+Theorem C05_comparator_asymmetric : forall a b x y, non_nil a -> non_nil b ->
+  Compare a b = Ok x -> Compare b a = Ok y ->
+  ~ (less_asc a b x /\ less_asc b a y) /\ ~ (less_desc a b x /\ less_desc b a y).
+Proof. exact comparator_asymmetric. Qed.
+Print Assumptions C05_comparator_asymmetric.
+
+Theorem C05_comparator_desc_is_converse : forall a b x y, non_nil a -> non_nil b ->
+  Compare a b = Ok x -> Compare b a = Ok y -> (less_desc a b x <-> less_asc b a y).
+Proof. exact comparator_desc_converse. Qed.
+Print Assumptions C05_comparator_desc_is_converse.
+
+Theorem C05_comparator_total : forall a b x y, non_nil a -> non_nil b ->
+  Compare a b = Ok x -> Compare b a = Ok y -> x = 0%Z \/ less_asc a b x \/ less_asc b a y.
+Proof. exact comparator_total. Qed.
+Print Assumptions C05_comparator_total.
+
+Theorem C05_comparator_no_cycle : forall a b c x y z w,
+  is_num a = true -> is_num b = true -> is_num c = true ->
+  Compare a b = Ok x -> Compare b c = Ok y -> Compare a c = Ok z -> Compare c a = Ok w ->
+  less_asc a b x -> less_asc b c y -> ~ less_asc c a w.
+Proof. exact comparator_no_3_cycle. Qed.
+Print Assumptions C05_comparator_no_cycle.
+
+(* two int64 keys beyond 2^53 that are the same float64: the exact comparison still orders them *)
+Example C05_comparator_nonvacuous :
+  Compare (GInt KInt64 9007199254740993) (GInt KInt64 9007199254740992) = Ok 1%Z /\
+  sort_expect (GInt KInt64 9007199254740992) (GInt KInt64 9007199254740993) (-1) = (1, 0)%Z /\
+  sort_expect GNil (GInt KInt 1) 0 = (0, 0)%Z /\ sort_expect (GInt KInt 1) GNil 0 = (1, 1)%Z.
+Proof. vm_compute. repeat split; reflexivity. Qed.
